@@ -66,7 +66,7 @@ def check_forest(t, trees, kinds=KINDS):
 def job(forests):
     t = core.Tally()
     for f in forests:
-        check_forest(t, f)
+        core.guard(t, "C15", {"engine": "E2", "module": MOD, "forest": f, "kind": KINDS[0]}, check_forest, t, f)
     return t
 
 
